@@ -77,3 +77,45 @@ package codec
 //@   loop 0 modifies binary.SpecConsumed
 //@   loop 1 invariant binary.SpecConsumed[c.reader] >= 0
 //@   loop 1 modifies binary.SpecConsumed
+
+//@ # ---- encoding (C08): the buffer is sized before it is written, and binary.Writer silently drops
+//@ # a write that does not fit. "Every frame round-trips" therefore needs: no write of the encoder
+//@ # is dropped, and the buffer is exactly full at the end (Bytes() is the whole message). This
+//@ # holds for any result of the sort/merge step, which is abstracted here.
+//@ spec func specSeriesBytes(ms []mergedSeriesInfo, n int) int = __ite(n <= 0, 0, specSeriesBytes(ms, n-1) + len(ms[n-1].series.Data))
+//@ trusted func (c *Codec) mergeContiguousSeries(keys []channel.Key, rawIndices []int, src framer.Frame, count int) (r []mergedSeriesInfo)
+//@   modifies &c.mergedSeriesResult
+//@ trusted func (s *sorter) reset(n int)
+//@   ensures s.offset == 0 && len(s.keys) >= n && len(s.rawIndices) >= n && len(s.alignments) >= n
+//@   modifies s
+//@ trusted func (s *sorter) sort()
+//@   ensures s.offset == old(s.offset) && len(s.keys) == old(len(s.keys)) && len(s.rawIndices) == old(len(s.rawIndices)) && len(s.alignments) == old(len(s.alignments))
+//@   modifies s
+//@ inline func writeTimeRange(w *binary.Writer, tr telem.TimeRange)
+//@ # bytes of the message header and of one series' metadata, by flag set
+//@ spec func specHdr(f flags) int = 5 + __ite(f.equalLens, 4, 0) + __ite(f.equalTimeRanges && !f.timeRangesZero, 16, 0) + __ite(f.equalAlignments && !f.zeroAlignments, 8, 0)
+//@ spec func specPer(f flags, n int) int = __ite(f.allChannelsPresent, 0, 4*n) + __ite(f.equalLens, 0, 4*n) + __ite(f.equalTimeRanges, 0, 16*n) + __ite(f.equalAlignments, 0, 8*n)
+//@ func (c *Codec) encodeInternal(ctx context.Context, src framer.Frame) (err error)
+//@   overflow off
+//@   pragma wraps timestamps, alignments, keys and lengths are reinterpreted as unsigned wire words
+//@   pragma abstract Count KeepKeys ShouldExcludeRaw Len IsVariable encode
+//@   # verified from the size computation on, for any outcome of validation, sorting and merging
+//@   pragma from newFlags()
+//@   requires c.buf != nil && binary.SpecWOff(c.buf) >= 0 && binary.SpecWOff(c.buf) <= binary.SpecWCap(c.buf)
+//@   # no write is dropped and the buffer is exactly full: Bytes() is the whole message
+//@   ensures  err == nil ==> binary.SpecWOff(c.buf) == binary.SpecWCap(c.buf)
+//@   atcall Uint8 binary.SpecWOff(c.buf) + 1 <= binary.SpecWCap(c.buf)
+//@   atcall Uint32 binary.SpecWOff(c.buf) + 4 <= binary.SpecWCap(c.buf)
+//@   atcall Uint64 binary.SpecWOff(c.buf) + 8 <= binary.SpecWCap(c.buf)
+//@   atcall Write binary.SpecWOff(c.buf) + len(data) <= binary.SpecWCap(c.buf)
+//@   modifies c.buf
+//@   loop 2 invariant true
+//@   loop 3 invariant byteArraySize == 5 + __ite(fgs.allChannelsPresent, 0, 4 * len(mergedSeries)) + specSeriesBytes(mergedSeries, __ri(0))
+//@   loop 3 invariant fgs.allChannelsPresent == old(fgs.allChannelsPresent) && fgs.timeRangesZero == old(fgs.timeRangesZero) && fgs.zeroAlignments == old(fgs.zeroAlignments)
+//@   # prefix sums of the data sizes are monotone (the induction is carried by this loop)
+//@   loop 3 invariant forall k int :: 0 <= k && k <= __ri(0) ==> 0 <= specSeriesBytes(mergedSeries, k) && specSeriesBytes(mergedSeries, k) <= specSeriesBytes(mergedSeries, __ri(0))
+//@   hint_before "c.buf.Write(s.Data)" specSeriesBytes(mergedSeries, __ri(0)+1) == specSeriesBytes(mergedSeries, __ri(0)) + len(s.Data) && specSeriesBytes(mergedSeries, __ri(0)+1) <= specSeriesBytes(mergedSeries, len(mergedSeries))
+//@   loop 4 modifies c.buf
+//@   loop 4 invariant binary.SpecWOff(c.buf) <= binary.SpecWCap(c.buf)
+//@   loop 4 invariant binary.SpecWCap(c.buf) == specHdr(fgs) + specPer(fgs, len(mergedSeries)) + specSeriesBytes(mergedSeries, len(mergedSeries))
+//@   loop 4 invariant binary.SpecWOff(c.buf) == specHdr(fgs) + specPer(fgs, __ri(0)) + specSeriesBytes(mergedSeries, __ri(0))
